@@ -458,7 +458,11 @@ func runC10Bubble(dir string, c NewStoreCase, info *h.Info, again *func() *h.Vio
 			continue
 		}
 		calls[r.Name]++
-		times = append(times, r.At)
+		if ctxEnd < 0 || r.At < ctxEnd {
+			// (a request that only gets onto a bounded transport when the context has ended and a
+			// connection comes free is not a "fetch attempt" whose spacing says anything)
+			times = append(times, r.At)
+		}
 		if len(r.Outcome) > 6 && r.Outcome[:6] == "value:" {
 			okCount[r.Name]++
 		}
